@@ -220,3 +220,87 @@ def family_space(tier, seed, include, base_kw, methods=('exhaustive_search', 'gr
                 out.append(c)
     out.sort(key=lambda c: (c['deviations'], c['panel']['G']))
     return out
+
+
+PRIORS = [{'kw': {'n_designs': 2}, 'op': 'exhaustive_search'},
+          {'kw': {'n_geos_max': 2}, 'op': 'geo_assignments'},
+          {'kw': {'treatment_share_range': [0.05, 0.35], 'n_designs': 2}, 'op': 'greedy_search'}]
+
+
+def reuse_space(p, include, base_kw, methods=('exhaustive_search', 'greedy_search'), d=1, priors=PRIORS, k_values=()):
+    """DEV(G,d) configurations run on a data object that has ALREADY served another matched-markets object
+    (non-initial state of the shared TBRMMData: geo index installed, arrays built, frame truncated to >= this window)."""
+    out = []
+    for c in with_methods(dev_configs(p, d, include, base_kw=base_kw, with_matrix_level=False, k_values=k_values), methods):
+        if not precondition_ok(c):
+            continue
+        for pr in priors:
+            cc = dict(c)
+            cc['prior'] = pr
+            cc['deviations'] = c['deviations'] + 1
+            out.append(cc)
+    return out
+
+
+def _mids(values, lo_pad, hi_pad, min_gap=1e-6):
+    vs = sorted(set(values))
+    out = [vs[0] * lo_pad]
+    for a, b in zip(vs, vs[1:]):
+        if b - a > min_gap * max(abs(a), abs(b)):
+            out.append((a + b) / 2.0)
+    out.append(vs[-1] * hi_pad)
+    return out
+
+
+def threshold_space(p, methods=('exhaustive_search', 'greedy_search'), iroas_values=(1.0, 2.5), base_kw=None,
+                    rho_values=(0.995,)):
+    """Constraint bounds placed between EVERY two consecutive critical values of the panel, so that every behaviour
+    of the threshold logic (per treatment group and per design) occurs:
+      budget: optimistic impacts of all geo subsets and required impacts of all designs (also divided by iroas)
+      share:  response shares of all geo subsets;   volume: control/treatment volume ratios of all designs."""
+    import itertools as it
+    base_kw = dict(base_kw or {})
+    _, tab = rpanel.table(panels.rows(p))
+    ser = rpanel.window(tab, 90)
+    share = rpanel.shares(tab)
+    geos = sorted(tab)
+    rowd = {g: (1, 1, 1) for g in geos}
+    G = p['G']
+    out = []
+    designs = list(relig.legal_designs(rowd, geos))
+    ri = []
+    for T, C in designs:
+        x, y = rpanel.agg(ser, C), rpanel.agg(ser, T)
+        ri.append(rstats.est_impact(y, rstats.corr(x, y), 3, 0.9, 0.9, 0.8))
+    subsets = [s for r in range(1, G + 1) for s in it.combinations(geos, r)]
+    for rho in rho_values:
+        opt = [rstats.est_impact(rpanel.agg(ser, s), rho, 3, 0.9, 0.9, 0.8) for s in subsets]
+        for iroas in iroas_values:
+            crit = [v / iroas for v in ri + opt] + ([v for v in ri + opt] if iroas != 1.0 else [])
+            mids = _mids(crit, 0.5, 2.0)
+            top = max(crit) * 10
+            for m in mids:
+                for br in ([0.0, m], [m, top]):
+                    kw = dict(base_kw, budget_range=br)
+                    if iroas != 1.0:
+                        kw['iroas'] = iroas
+                    if rho != 0.995:
+                        kw['rho_max'] = rho
+                    out.append({'panel': p, 'rows': [[1, 1, 1]] * G, 'nomatrix': False, 'extra': None, 'kw': kw,
+                                'deviations': 1 + (iroas != 1.0) + (rho != 0.995)})
+    sh = [sum(share[g] for g in s) for s in subsets if len(s) < G]
+    for m in _mids(sh, 0.5, 1.0):
+        m = min(m, 0.9995)
+        for sr in ([0.0001, m], [m, 0.9999]):
+            if sr[0] < sr[1]:
+                out.append({'panel': p, 'rows': [[1, 1, 1]] * G, 'nomatrix': False, 'extra': None,
+                            'kw': dict(base_kw, treatment_share_range=sr), 'deviations': 1})
+    ratios = []
+    for T, C in designs:
+        r = sum(share[g] for g in C) / sum(share[g] for g in T)
+        ratios.append(max(r, 1 / r))
+    for m in _mids(ratios, 1.0, 1.5):
+        if m > 1.0 + 1e-9:
+            out.append({'panel': p, 'rows': [[1, 1, 1]] * G, 'nomatrix': False, 'extra': None,
+                        'kw': dict(base_kw, volume_ratio_tolerance=m - 1.0), 'deviations': 1})
+    return [c for c in with_methods(out, methods) if precondition_ok(c)]
